@@ -34,7 +34,18 @@ def prepare(ctx, prop_file, own_files):
             info.get("failed_at"), prop_file, " ".join(info["log"].split())[-500:]))
     if core_broken:
         ob_failed.append("model/proof files do not compile: %s\n%s" % (core_broken, log[-1500:]))
+    info["failed_files"] = failed
     return info, ob_failed
+
+
+def table_obligations(obfile, info):
+    """names of the `Lemma ob_*` table obligations in coq/g01/<obfile> and whether that file compiled in this run."""
+    import re
+    src = common.strip_coq_comments(open(os.path.join(common.VERIF, "coq", GROUP, obfile)).read())
+    names = re.findall(r"\bLemma\s+(ob_[A-Za-z0-9_']+)", src)
+    ok = obfile not in info.get("failed_files", []) and os.path.exists(
+        os.path.join(common.VERIF, "coq", GROUP, obfile[:-2] + ".vo"))
+    return names, (names if ok else [])
 
 
 def run_harness(ctx, name, ob_failed, timeout=900, extra_args=()):
